@@ -39,13 +39,20 @@ def build_config(world, towers=None, nsteps=None):
     from bldfm.config_parser import parse_config_dict
 
     raw = copy.deepcopy(world["config"])
+    xy = world.get("tower_xy")
     if towers is not None:
         raw["towers"] = [raw["towers"][i] for i in towers]
+        if xy is not None:
+            xy = [xy[i] for i in towers]
     if nsteps is not None:
         for k, v in raw["met"].items():
             if isinstance(v, list):
                 raw["met"][k] = v[:nsteps]
-    return parse_config_dict(raw)
+    cfg = parse_config_dict(raw)
+    if xy is not None:
+        for t, (x, y) in zip(cfg.towers, xy):
+            t.x, t.y = x, y
+    return cfg
 
 
 def surface_flux(world):
@@ -61,8 +68,17 @@ def gen_world(rng, large=False):
         # beyond the small range of the quantifier: more towers, longer series
         nt = rng.choice([4, 5, 6])
         ns = rng.choice([5, 6, 8])
-    names = rng.sample(["zeta", "alpha", "mid", "Tower-10", "Tower-9", "b", "Tower-1", "a"], nt)
-    heights = rng.sample([3.0, 4.0, 5.0, 6.5, 7.0, 8.5], nt)
+    if large and rng.random() < 0.5:
+        nt = rng.choice([10, 11, 12])
+        ns = rng.choice([1, 2])
+    elif large and rng.random() < 0.3:
+        nt = rng.choice([1, 2])
+        ns = 16
+    pool_names = ["zeta", "alpha", "mid", "Tower-10", "Tower-9", "b", "Tower-1", "a"]
+    if nt > len(pool_names) or (large and rng.random() < 0.5):
+        pool_names = [f"tower_{i}" for i in range(max(nt, 12))]  # tower_10 sorts before tower_2
+    names = rng.sample(pool_names, nt)
+    heights = [rng.choice([3.0, 4.0, 5.0, 6.5, 7.0, 8.5]) + 0.01 * k for k in range(nt)]
     towers = []
     for k in range(nt):
         towers.append({"name": names[k], "lat": 50.0 + rng.choice([0.0, 1e-4, 2.5e-4]), "lon": 11.0 + rng.choice([0.0, 1.5e-4, 3e-4]), "z_m": heights[k]})
@@ -87,7 +103,7 @@ def gen_world(rng, large=False):
         met["z0"] = rng.choice([0.05, 0.1])
         met["wind_speed"] = series([2.0, 3.0, 4.5], force_list=(ns > 1 or rng.random() < 0.3))
     met["mol"] = series([-60.0, 120.0, 1e9])
-    met["wind_dir"] = series([200.0, 270.0, 300.0])
+    met["wind_dir"] = series([200.0, 270.0, 300.0] if rng.random() < 0.8 else [0.0, 360.0, -30.0, 405.0, 90.0])
     repeated = False
     if ns >= 2 and rng.random() < 0.6:
         # a repeated met condition: the last step equals the first in every field
@@ -102,10 +118,10 @@ def gen_world(rng, large=False):
             met["timestamps"] = ["2024-06-01" if k < (ns + 1) // 2 else "2024-06-02" for k in range(ns)]
     nz = rng.choice([4, 5, 6])
     dom = {"nx": rng.choice([8, 10, 11, 12, 16]), "ny": rng.choice([8, 9, 12]), "xmax": rng.choice([80.0, 100.0]), "ymax": rng.choice([60.0, 100.0]),
-           "nz": nz, "modes": rng.choice([[4, 4], [8, 8], [6, 4]]), "halo": rng.choice([None, None, 25.0, 40.0]), "ref_lat": 50.0, "ref_lon": 11.0}
+           "nz": nz, "modes": rng.choice([[4, 4], [8, 8], [6, 4], [64, 64]]), "halo": rng.choice([None, None, 25.0, 40.0, 0.0]), "ref_lat": 50.0, "ref_lon": 11.0}
     lv = rng.choice(["default", "default", "output_levels", "full_output"])
     if lv == "output_levels":
-        dom["output_levels"] = sorted(rng.sample(range(1, nz + 1), 2))
+        dom["output_levels"] = sorted(rng.sample(range(0, nz + 1), rng.choice([1, 2, 2, 3])))
     elif lv == "full_output":
         dom["full_output"] = True
     footprint = rng.random() < 0.75
@@ -114,7 +130,7 @@ def gen_world(rng, large=False):
         # grid parity compatible with the (even) mode counts - parity is C11's subject
         dom["nx"] += dom["nx"] % 2
         dom["ny"] += dom["ny"] % 2
-    solver = {"closure": rng.choice(["MOST", "MOST", "CONSTANT", "MOSTM"]), "footprint": footprint, "precision": rng.choice(["double"] * 4 + ["single"]),
+    solver = {"closure": rng.choice(["MOST", "MOST", "CONSTANT", "MOSTM"] + (["OAAHOC"] if forcing == "ustar" else [])), "footprint": footprint, "precision": rng.choice(["double"] * 4 + ["single"]),
               "surface_flux_shape": rng.choice(["diamond", "circle", "point"])}
     if solver["closure"] == "MOSTM":
         # no diffusion along the flow: needs a wind that is not axis aligned
@@ -124,7 +140,17 @@ def gen_world(rng, large=False):
     if (colocated or repeated) and footprint and rng.random() < 0.6:
         # two tasks that want the same cache entry: make sure the cache is on
         par["use_cache"] = True
-    world = {"config": {"domain": dom, "towers": towers, "met": met, "solver": solver, "parallel": par},
+    xy = None
+    if rng.random() < 0.15:
+        # no geographic reference: towers carry explicit local coordinates (all lat/lon equal)
+        dom.pop("ref_lat")
+        dom.pop("ref_lon")
+        xy = [[rng.choice([0.0, 7.5, 12.0, -9.0]), rng.choice([0.0, 5.0, 11.0])] for _ in towers]
+        for t in towers:
+            t["lat"], t["lon"] = 0.0, 0.0
+        if colocated:
+            xy[1] = list(xy[0])
+    world = {"config": {"domain": dom, "towers": towers, "met": met, "solver": solver, "parallel": par}, "tower_xy": xy,
              "flux_seed": rng.randrange(1000), "n_towers": nt, "n_steps": ns, "colocated": colocated, "repeated": repeated}
     return world
 
@@ -493,9 +519,16 @@ def execute(job):
     job = dict(job, record=rec)
     out = {"status": "ok", "seed": rec.get("seed")}
     ref = job.get("ref")
-    if not isinstance(ref, dict) or "error" in (ref or {}):
+    if not isinstance(ref, dict):
         out["status"] = "harness_error"
-        out["error"] = "reference computation failed: " + str((ref or {}).get("error"))[-1500:]
+        out["error"] = "no reference"
+        return out
+    if "error" in ref:
+        # the single runs themselves fail for this world: there is nothing the
+        # drivers could be equal to - the scenario is skipped (and counted; too
+        # many skips make the check fail, see health())
+        out["skipped"] = ref["error"][-400:]
+        out["record"] = rec
         return out
     run = Run(job)
     try:
@@ -634,6 +667,14 @@ def simplify(rec):
         yield c
 
 
+def health(executed):
+    runs = [r for _, r in executed]
+    sk = [r for r in runs if r.get("skipped")]
+    if runs and len(sk) > max(3, 0.1 * len(runs)):
+        return f"{len(sk)} of {len(runs)} scenarios were skipped because the single runs themselves raised: {sk[0]['skipped']}"
+    return None
+
+
 def plan(tier, master_seed, runs=None):
     from sim.core import run_seed
 
@@ -725,6 +766,7 @@ def evidence(plan_, executed, tier, master_seed):
         "distinct_completion_permutations": len(perms),
         "distinct_task_to_worker_assignments": len(assigns),
         "runs_with_completion_order_neq_submission_order": neq,
+        "scenarios_skipped_because_single_runs_raise": sum(1 for _, r in runs if r.get("skipped")),
         "scheduler": stats,
         "worker_yield_points_by_file_operation": yk,
         "parent_states": parent_states,
